@@ -53,6 +53,13 @@ func (p *parser) expression(prec int) (Node, error) {
 		return nil, err
 	}
 
+	return p.infix(node, prec)
+}
+
+// infix extends node with the operators and selectors that follow it and bind
+// tighter than prec.
+func (p *parser) infix(node Node, prec int) (Node, error) {
+	var err error
 	newPrec := precedence(p.curr.Type)
 	for newPrec > prec {
 		switch p.curr.Type {
@@ -1934,19 +1941,10 @@ func (p *parser) projection(prec int) (Node, error) {
 		default:
 			return nil, &unexpectedTokenError{p.curr.Value}
 		}
-	case lexer.FilterToken:
-		if err := p.advance(); err != nil {
-			return nil, err
-		}
-
-		filter, err := p.filter()
-		if err != nil {
-			return nil, err
-		}
-
-		node = &FilterCurrentNode{
-			Filter: filter,
-		}
+	case lexer.ArrayWildcardToken,
+		lexer.FilterToken:
+		// a selector that projects in turn: the same as in prefix position
+		return p.expression(prec)
 	case lexer.ObjectWildcardToken:
 		if p.next.Type == lexer.EndToken {
 			if err := p.advance(); err != nil {
@@ -1970,110 +1968,32 @@ func (p *parser) projection(prec int) (Node, error) {
 			return nil, err
 		}
 
-		node, _, err = p.index(nil)
+		var project bool
+		node, project, err = p.index(nil)
 		if err != nil {
 			return nil, err
 		}
-	default:
-		return nil, nil
-	}
 
-	newPrec := precedence(p.curr.Type)
-	for newPrec > prec {
-		switch p.curr.Type {
-		case lexer.DotToken:
-			switch p.next.Type {
-			case lexer.ArrayWildcardToken:
-				if err := p.advance2(); err != nil {
-					return nil, err
-				}
-
-				node = &SelectArraySingleNode{
-					Child: node,
-					Field: ObjectValuesCurrentNode{},
-				}
-			case lexer.OpenBraceToken:
-				if err := p.advance2(); err != nil {
-					return nil, err
-				}
-
-				node, err = p.selectObject(node)
-				if err != nil {
-					return nil, err
-				}
-			case lexer.OpenSqBraceToken:
-				if err := p.advance2(); err != nil {
-					return nil, err
-				}
-
-				node, err = p.selectArray(node)
-				if err != nil {
-					return nil, err
-				}
-			case lexer.QuotedIdentifierToken,
-				lexer.UnquotedIdentifierToken:
-				if err := p.advance(); err != nil {
-					return nil, err
-				}
-
-				node, err = p.expression(newPrec)
-				if err != nil {
-					return nil, err
-				}
-			default:
-				return nil, &unexpectedTokenError{p.curr.Value}
-			}
-		case lexer.FilterToken:
-			if err := p.advance(); err != nil {
-				return nil, err
-			}
-
-			filter, err := p.filter()
-			if err != nil {
-				return nil, err
-			}
-
-			node = &FilterNode{
-				Child:  node,
-				Filter: filter,
-			}
-		case lexer.ObjectWildcardToken:
-			if err := p.advance(); err != nil {
-				return nil, err
-			}
-
+		if project {
 			right, err := p.projection(projectionPrecedence)
 			if err != nil {
 				return nil, err
 			}
 
 			if right == nil {
-				node = &ObjectValuesNode{
-					Child: node,
-				}
-			} else {
-				node = &ProjectObjectNode{
-					Left:  node,
-					Right: right,
-				}
-			}
-		case lexer.OpenSqBraceToken:
-			if err := p.advance(); err != nil {
-				return nil, err
+				right = CurrentNode{}
 			}
 
-			node, _, err = p.index(node)
-			if err != nil {
-				return nil, err
+			node = &ProjectArrayNode{
+				Left:  node,
+				Right: right,
 			}
-		default:
-			return nil, &unexpectedTokenError{p.curr.Value}
 		}
-
-		newPrec = precedence(p.curr.Type)
+	default:
+		return nil, nil
 	}
 
-	return node, nil
+	return p.infix(node, prec)
 }
 
 func (p *parser) selectArray(child Node) (Node, error) {
